@@ -156,7 +156,31 @@ fn wildcard_pattern(rng: &mut Rng) -> (String, String) {
     (p, hit)
 }
 
+/// A display-name-like text with `*` / `?` in it, and a body in which it occurs literally (with or
+/// without word characters glued on, near misses, other case).
+fn wild_literal(rng: &mut Rng) -> (String, String) {
+    let mut w = String::new();
+    let n = 1 + rng.below(4);
+    for _ in 0..n {
+        match rng.below(5) {
+            0 => w.push('*'),
+            1 => w.push('?'),
+            2 => w.push_str(*rng.pick(SEPS)),
+            _ => w.push(*rng.pick(WORDISH)),
+        }
+    }
+    if !w.contains(['*', '?']) {
+        w.push(*rng.pick(&['*', '?']));
+    }
+    let body = embed(rng, &w);
+    (w, body)
+}
+
 pub fn long_pair(rng: &mut Rng) -> (String, String, &'static str) {
+    if rng.chance(1, 6) {
+        let (w, body) = wild_literal(rng);
+        return (flip_case(rng, &w), body, "long.wildliteral");
+    }
     match rng.below(5) {
         0 | 1 => {
             let w = literal_word(rng);
